@@ -91,6 +91,9 @@ pub open spec fn owed(wbuf: Option<Bytes>, msgs: Seq<Bytes>) -> Seq<u8> {
     ensures r == (err.spec_kind() is Interrupted),
 //@END
 
+/// `a` is what is left of `b` after taking some elements off its front
+pub open spec fn is_suffix<T>(a: Seq<T>, b: Seq<T>) -> bool { a.len() <= b.len() && a =~= b.skip(b.len() - a.len()) }
+
 #[verifier::exec_allows_no_decreases_clause]
 //@ITEM file=metrics-exporter-tcp/src/lib.rs sel=fn drive_connection ret=closed
 // R3: tracing statements dropped (logging has no effect on the state the contract mentions)
@@ -102,8 +105,13 @@ pub open spec fn owed(wbuf: Option<Bytes>, msgs: Seq<Bytes>) -> Seq<u8> {
         // stream stays a concatenation of whole frames even across partial writes, WouldBlock and EINTR.
         // (A client reported closed is dropped by the caller together with its queue.)
         !closed ==> final(conn).sent() + owed(*final(wbuf), final(msgs)@) == old(conn).sent() + owed(*old(wbuf), old(msgs)@),
+        // the queue (which the caller may shorten from the front when the client is slow: drop-oldest) only ever holds whole,
+        // not yet started frames: this function takes frames off its front and puts nothing (in particular no remainder of a
+        // partially written frame) back into it -- the remainder is parked in `wbuf`, out of drop-oldest's reach.
+        is_suffix(final(msgs)@, old(msgs)@),
 //@LOOP 1
         invariant conn.sent() + owed(*wbuf, msgs@) == old(conn).sent() + owed(*old(wbuf), old(msgs)@),
+            is_suffix(msgs@, old(msgs)@),
 //@END
 
 } // verus!
